@@ -1380,6 +1380,33 @@ impl<'a, SE: extensions::ShellExtensions> WordExpander<'a, SE> {
                 let expanded_parameter_len = expanded_parameter.polymorphic_len() as i64;
                 let mut expanded_offset = offset.eval(self.shell, self.params, false).await?;
 
+                // The offset into an indexed array names an index, not a position: a
+                // negative one counts back from the highest index, and the slice starts at
+                // the first element whose index is not below it.
+                if let brush_parser::word::Parameter::NamedWithAllIndices { name, .. } = &parameter
+                    && let Some((_, var)) = self.shell.env().get(name)
+                    && matches!(var.value(), ShellValue::IndexedArray(_))
+                {
+                    let indices: Vec<i64> = var
+                        .value()
+                        .element_keys(self.shell)
+                        .iter()
+                        .filter_map(|key| key.parse().ok())
+                        .collect();
+                    let mut first_index = expanded_offset;
+                    if first_index < 0 {
+                        first_index += indices.last().map_or(0, |last| last + 1);
+                    }
+                    expanded_offset = if first_index < 0 {
+                        // Before the start of the array: out of range.
+                        -expanded_parameter_len - 1
+                    } else {
+                        #[expect(clippy::cast_possible_wrap)]
+                        let position = indices.iter().filter(|i| **i < first_index).count() as i64;
+                        position
+                    };
+                }
+
                 // An offset outside the value selects nothing, whatever the length says.
                 let offset_out_of_range = expanded_offset > expanded_parameter_len
                     || (expanded_offset < 0 && expanded_offset + expanded_parameter_len < 0);
